@@ -36,6 +36,7 @@ from .numbers import uri_path_abbrev
 from .pipe import Pipe
 from .util import DeprecationWarning
 from .util.linkformat import Link, LinkFormat
+from .util.uri import quote_factory, unreserved, sub_delims
 
 
 def hashing_etag(request: message.Message, response: message.Message):
@@ -330,6 +331,12 @@ class WKCResource(Resource):
         return response
 
 
+# Path components are percent encoded on their way into a link target like
+# Message.get_request_uri does it, so that the target is a URI reference that
+# is taken apart into the registered path again
+_quote_for_href = quote_factory(unreserved + sub_delims + ":@")
+
+
 class PathCapable:
     """Class that indicates that a resource promises to parse the uri_path
     option, and can thus be given requests for
@@ -475,7 +482,7 @@ class Site(interfaces.ObservableResource, PathCapable):
                 details = {}
             if details is None:
                 continue
-            lh = Link("/" + "/".join(path), **details)
+            lh = Link("/" + "/".join(_quote_for_href(p) for p in path), **details)
 
             links.append(lh)
 
@@ -483,7 +490,12 @@ class Site(interfaces.ObservableResource, PathCapable):
             if hasattr(resource, "get_resources_as_linkheader"):
                 for link in resource.get_resources_as_linkheader().links:
                     links.append(
-                        Link("/" + "/".join(path) + link.href, link.attr_pairs)
+                        Link(
+                            "/"
+                            + "/".join(_quote_for_href(p) for p in path)
+                            + link.href,
+                            link.attr_pairs,
+                        )
                     )
         return LinkFormat(links)
 
